@@ -484,6 +484,11 @@ def _opt_variant(body, defs, op, depth=0):
     return next(iter(out)) if len(out) == 1 else "?"
 
 
+def _ref_adts():
+    from . import renames
+    return renames.ref()["adts"]
+
+
 def rule_r9(F, rep):
     from . import cfg as cfgm
     R = rep.rule("C04.R9", "the fields of an object whose layer carries the environment share it: a handler that builds an "
@@ -500,6 +505,7 @@ def rule_r9(F, rep):
         body = fn.body
         layer_sites = []
         field_sites = []
+        bundled = set()
         defs = {}
         for bb, si, st in body.assigns():
             if not st["p"]["p"]:
@@ -516,9 +522,19 @@ def rule_r9(F, rep):
             elif rv.get("adt") == STATE and rv["v"] in ("ObjectDynField", "ObjectFixField"):
                 v = next(x for x in F.adt(STATE)["variants"] if x["n"] == rv["v"])
                 names = [f["n"] for f in v["fields"]]
-                if "base_env" not in names:
-                    raise AnchorMissing("State::%s.base_env" % rv["v"])
-                field_sites.append((bb, rv["v"], _opt_variant(body, defs, rv["xs"][names.index("base_env")]), body.span(st["sp"])))
+                if "base_env" in names:
+                    field_sites.append((bb, rv["v"], _opt_variant(body, defs, rv["xs"][names.index("base_env")]), body.span(st["sp"])))
+                else:
+                    bundled.add(rv["v"])
+            elif rv.get("adt") not in (LAYER, D + "ObjectFieldData", D + "ObjectData") and F.adts.get(rv.get("adt")) is not None \
+                    and rv.get("adt") not in _ref_adts():
+                # a payload struct introduced later that bundles the scheduled field's data
+                a = F.adts[rv["adt"]]
+                names = [f["n"] for f in a["variants"][0]["fields"]] if len(a["variants"]) == 1 else []
+                if "base_env" in names:
+                    field_sites.append((bb, rv["adt"].rsplit("::", 1)[-1], _opt_variant(body, defs, rv["xs"][names.index("base_env")]), body.span(st["sp"])))
+        if layer_sites and bundled and not field_sites:
+            raise kwalk.WalkLimit("State::%s carries its base environment in a form the rule does not follow" % sorted(bundled)[0])
         if not layer_sites or not field_sites:
             continue
         rep.fn(fn)
